@@ -27,6 +27,14 @@ def classes_of(c, cats=("missing",)):
 def cases_for(run):
     rng = run.rng
     cases = []
+    # corpus first: minimised past failures (regression cases of fixed findings)
+    cdir = os.path.join(os.path.dirname(os.path.dirname(os.path.abspath(__file__))), "corpus", "C15")
+    if os.path.isdir(cdir):
+        for fn in sorted(os.listdir(cdir)):
+            for item in json.load(open(os.path.join(cdir, fn))):
+                c = J.case_from_json(item["case"])
+                c["kind"] = "corpus"
+                cases.append(c)
     n = 420 if run.tier == "quick" else 12000
     for i in range(n):
         cases.append(J.gen_case(rng, maxlen=14 if i % 4 else 24))
